@@ -2067,6 +2067,16 @@ fn find_nsec_covering_record<'a>(
     nsecs.iter().copied().find(|(nsec_name, nsec_data)| {
         let next_domain_name = nsec_data.next_domain_name();
 
+        // RFC 6840 4.1: an NSEC from the parent side of a zone cut (NS without SOA) or at a DNAME
+        // owner says nothing about the names below its owner name.
+        let types = nsec_data.type_set();
+        if ((types.contains(RecordType::NS) && !types.contains(RecordType::SOA))
+            || types.contains(RecordType::Unknown(39)))
+            && nsec_name.zone_of(test_name)
+        {
+            return false;
+        }
+
         test_name > nsec_name
             && (test_name < next_domain_name || Some(next_domain_name) == soa_name)
     })
